@@ -11,6 +11,8 @@ import pulsarbat as pb
 from .. import exact, gen, probes, monitors, oracles, refdft
 from .C06 import make_dm
 
+from ..replay import wl_R
+
 RULE = ("baseband / dual-polarisation signals: N in {16,100,243,1000,4095,4096,(thorough: 16384)} x nchan 1-5 x alignment x trailing dims x "
         "c8/c16 x NumPy/Dask x DM of either sign scaled so the band delay spans 0.2..1.5 N samples (DM 1e-6..1e3) x center 1e8..1e10 Hz x "
         "rate 1e4..4e8 Hz x f_ref {None,min,max,inside,30% outside}. Every chirp_function/chirp_from_signal result is compared bin by "
@@ -365,9 +367,15 @@ def wl_chirp_fn(ctx, idx, rng):
     ctx.bucket("chirp_fn", N, use_dask, dmval > 0, str(dm.unit))
 
 
+def install_universal(ctx):
+    ChirpMonitor(ctx).install()
+    CoherentMonitor(ctx).install()
+    return probes.detach_all
+
+
 def workloads(ctx):
     q = ctx.tier == "quick"
-    return [("coherent", 1440 if q else 14400, wl_coherent), ("chirp_fn", 600 if q else 6000, wl_chirp_fn)]
+    return [("R", 1, wl_R), ("coherent", 1440 if q else 14400, wl_coherent), ("chirp_fn", 600 if q else 6000, wl_chirp_fn)]
 
 
 def setup(ctx):
